@@ -71,7 +71,7 @@ type Case struct {
 }
 
 var yieldPoints = []string{"drain-subscribed", "drain-signaled", "drain-before-wait", "drain-after-wait", "drain-return",
-	"async-signal", "async-ticked", "async-idle", "engine-start", "engine-run-returned", "engine-exit"}
+	"async-signal", "async-ticked", "async-idle", "engine-start", "engine-run-returned", "engine-exit", "queue-dequeued"}
 
 func genSchedule(t *rapid.T, label string) Schedule {
 	s := Schedule{GOMAXPROCS: rapid.SampledFrom([]int{1, 2, 4, 16}).Draw(t, label+"procs")}
@@ -123,6 +123,9 @@ func (h *hookState) hook(point string) {
 	h.mu.Lock()
 	h.count[point]++
 	sleep, ok := h.plan[point][h.count[point]]
+	if !ok {
+		sleep, ok = h.plan[point][0] // Nth 0 = every occurrence
+	}
 	if ok {
 		h.fired++
 	}
@@ -378,6 +381,14 @@ func TestRegress(t *testing.T) {
 }
 
 func TestReplay(t *testing.T) {
+	if stats.ReplayStage() == "handoff" {
+		var hc HCase
+		if _, err := stats.LoadReplay(&hc); err != nil {
+			t.Fatal(err)
+		}
+		stats.Record(t, hc, RunHCase(hc))
+		return
+	}
 	if stats.ReplayStage() == "parallel" {
 		var pc PCase
 		if _, err := stats.LoadReplay(&pc); err != nil {
